@@ -20,7 +20,7 @@ TOK_PLAIN = r"(?P<SPACE>\s+)|(?P<a>a)|(?P<b>b)|(?P<c>c)|(?P<d>d)"
 # ... and a quoted word is a token of another kind (b) whose VALUE (the text between the quotes) may equal the value of an a
 TOK_KW = r"(?P<SPACE>\s+)|(?P<X1>x)|(?P<X2>y)|(?P<W1>[k-w]+)|\"(?P<Q1>[a-z]*)\""
 KW_SYN = {'X1': 'a', 'X2': 'a', 'W1': 'a', 'Q1': 'b'}
-KW_KEY = {('a', 'kw'): 'b', ('a', 'kww'): 'c'}
+KW_KEY = {('a', 'kw'): 'b', ('a', 'kww'): 'c', ('a', 'kwd'): 'd'}
 
 FAMILIES = {
     # name: (NumNT, terms, MaxAlts, MaxLen, K, PrefixLen)
@@ -166,8 +166,10 @@ def render(toks, kw, salt=0):
             lex.append(('x', 'y', 'mm')[(i + salt) % 3])
         elif t == 'b':
             lex.append(('kw', '"x"', '"mm"', '"y"')[(i + salt) % 4])
-        else:
+        elif t == 'c':
             lex.append('kww')
+        else:
+            lex.append('kwd')
     return ' '.join(lex), [{'n': t, 'v': l.strip('"')} for t, l in zip(toks, lex)]      # value of a quoted word: without the quotes
 
 
